@@ -2,7 +2,7 @@ ID = "C05"
 TESTS = [
     T("platformkey", "TestC05PlatformKeyInjective",
       {"checks": 20000, "shards": 2, "timeout": 300},
-      {"checks": 400000, "shards": 8, "timeout": 1200}),
+      {"checks": 150000, "shards": 8, "timeout": 1200}),
     T("platformkey", "TestC05PlatformTrieModel",
       {"checks": 3000, "shards": 2, "timeout": 300},
       {"checks": 60000, "shards": 8, "timeout": 1200}),
